@@ -14,6 +14,7 @@ import (
 	"github.com/btcsuite/btcd/chaincfg/chainhash"
 	"github.com/btcsuite/btcd/txscript"
 	"github.com/btcsuite/btcd/wire"
+	"github.com/btcsuite/btcwallet/chain"
 	"github.com/btcsuite/btcwallet/waddrmgr"
 	"github.com/btcsuite/btcwallet/wallet"
 	"github.com/btcsuite/btcwallet/walletdb"
@@ -479,6 +480,8 @@ func (w *spWorld) apply(st *spStep, a *spArgs, rep *common.Report) error {
 			e.chain.SendAnswer = func(*wire.MsgTx) error {
 				return errors.New("mock backend: transaction rejected: min relay fee not met")
 			}
+		case "inmempool":
+			e.chain.SendAnswer = func(*wire.MsgTx) error { return chain.ErrTxAlreadyInMempool }
 		case "notifyfail1":
 			e.chain.ArmNotifyRecvFailure(1)
 		case "notifyfail2":
@@ -503,6 +506,9 @@ func (w *spWorld) apply(st *spStep, a *spArgs, rep *common.Report) error {
 			}
 			if st.Ret == "ok" && a.Ans == "accepted" {
 				class = "eligibility"
+			}
+			if a.Ans == "inmempool" {
+				class = "answer"
 			}
 			w.add(class, what+" result", fmt.Sprintf("%s (%v)", got, err), st.Ret)
 			return nil
